@@ -1,6 +1,10 @@
 import XalanModel.C05.SaxProofs
 import XalanModel.C05.StreamProofs
 import XalanModel.C05.IndexProofs
+import XalanModel.C05.StreamHoldProofs
+import XalanModel.C05.WrapperProofs
+import XalanModel.C05.XDomProofs
+import XalanModel.C05.StreamFailProofs
 import XalanModel.C05.Funnel
 import XalanModel.C05.TargetProofs
 import XalanModel.Generated.C05_Funnel
@@ -77,6 +81,30 @@ example :
     creationLog (events f) { accumulate := true } =
       [.elem [97], .attr xmlNsAttr.1 xmlNsAttr.2, .attr ("xmlns:q".toList.map Char.toNat) [117], .attr [105, 100] [49],
        .text [120, 121], .elem [98], .text [122]] := by
+  decide
+
+/-- **Xerces-DOM wrapper: index order = document order.**  `BuildWrapperTreeWalker` numbers the nodes of any DOM
+forest in the order element, its attribute nodes (map order), its children, following siblings — the XPath document
+order — with consecutive indices from 2 (the document node has 1). -/
+theorem wrapper_index_order (f : Forest) :
+    (wrapDocument f).map (·.1) = preorder f ∧
+    (wrapDocument f).map (·.2) = List.range' 2 (preorder f).length :=
+  ⟨(wrapWalk_spec f 2).1, (wrapWalk_spec f 2).2.1⟩
+
+/-- **index_eq_structure.**  The native source tree built from any fragmentation of a document and the eagerly
+built wrapper over the same document as a DOM in XPath normal form (what C05's quantifier asks of a DOM) give every
+node the same index: the k-th node in document order has index k+2 in both, so `isNodeAfter`'s index comparison
+orders any two nodes the same way in both representations. -/
+theorem index_eq_structure (f : Forest) (h : TopOK f false = true) :
+    (wrapDocument (normDoc f)).map (·.1) = creationLog (events f) { accumulate := true } ∧
+    (wrapDocument (normDoc f)).map (·.2) = List.range' 2 (creationLog (events f) { accumulate := true }).length := by
+  rw [sax_index_order f h]
+  exact wrapper_index_order (normDoc f)
+
+/-- non-vacuity: an element with two attributes, mixed children and a following comment -/
+example :
+    wrapDocument (.elem [97] [([105], [49]), ([107], [50])] (.text [120] (.elem [98] [] .nil (.comment [99] .nil))) (.pi [112] [] .nil)) =
+      [(.elem [97], 2), (.attr [105] [49], 3), (.attr [107] [50], 4), (.text [120], 5), (.elem [98], 6), (.comment [99], 7), (.pi [112] [], 8)] := by
   decide
 
 /-- Invariant over *every* event history (balanced or not): outside all elements nothing is held
@@ -180,6 +208,33 @@ theorem callback_surrogate_split_counterexample :
   revert this
   decide
 
+/-- **callback_concat for a pair-aware transcoder (fixed stream).**  With `proposed/C05-text-surrogate-split.diff`
+(a trailing leading surrogate stays in the buffer when it is full; long runs are written directly only when that
+cannot separate a pair) the additivity hypothesis is no longer needed: for every transcoder that treats code points
+independently (`PairAdditive`: additive over every cut that does not separate a surrogate pair — true of real
+UTF-8/ISO-8859-x/… transcoders), every history, buffer size and flush-handler setting, the chunks concatenate to the
+transcoding of the whole runs of wide units between synchronisation points (`specR`). -/
+theorem callback_concat_pair_aware (tr : List Nat → Bytes) (hp : PairAdditive tr) (ops : List WOp) (bufSize : Nat) (fh : Bool) :
+    received ((wrunH tr ops (fresh bufSize fh)).close tr) = specR tr false [] ops := by
+  have g0 : Good (fresh bufSize fh) := ⟨rfl, rfl, fun _ => rfl⟩
+  obtain ⟨g, _, hb⟩ := wrunH_good hp ops _ g0
+  rw [closeH_good hp _ g, hb]
+  simp [fresh, received, chunksOf]
+
+/-- hence the buffer size is irrelevant for the fixed stream even for pair-aware transcoders -/
+theorem callback_buffer_size_irrelevant_pair_aware (tr : List Nat → Bytes) (hp : PairAdditive tr) (ops : List WOp)
+    (n m : Nat) (fh fh' : Bool) :
+    received ((wrunH tr ops (fresh n fh)).close tr) = received ((wrunH tr ops (fresh m fh')).close tr) := by
+  rw [callback_concat_pair_aware tr hp, callback_concat_pair_aware tr hp]
+
+/-- non-vacuity / contrast with `callback_surrogate_split_counterexample`: the same pair written unit by unit
+through the fixed stream gives the same bytes behind a 1-unit and a 4-unit buffer, and that is `specR` -/
+example :
+    received ((wrunH trPair [.wideChar 0xD83D, .wideChar 0xDE00, .wideChar 0x61] (fresh 1 true)).close trPair) = [0xF0, 0x61] ∧
+    received ((wrunH trPair [.wideChar 0xD83D, .wideChar 0xDE00, .wideChar 0x61] (fresh 4 true)).close trPair) = [0xF0, 0x61] ∧
+    specR trPair false [] [.wideChar 0xD83D, .wideChar 0xDE00, .wideChar 0x61] = [0xF0, 0x61] := by
+  decide
+
 /-- **C-API data buffer.**  `XalanTransformToData` hands back the stream's bytes followed by a NUL
 and no length: a C caller reads back exactly the output iff it has no zero byte. -/
 theorem capi_data_cstring (out : Bytes) (h : ∀ b ∈ out, b ≠ 0) : cstr (capiData out) = out :=
@@ -193,10 +248,8 @@ theorem capi_data_utf16_counterexample :
     out = [255, 254, 60, 0, 97, 0, 47, 0, 62, 0] ∧ cstr (capiData out) = [255, 254, 60] := by
   decide
 
-/-- When the handler reports a short count the stream throws: nothing more is delivered, and what
-was delivered (including the chunk being refused) is a prefix of the byte stream.  Proved here
-for the refusing call being a direct write; the general prefix statement is not proved. -/
-theorem callback_failure_stops_partial (tr : List Nat → Bytes) (st : WSt) (h : st.failed = true) (ops : List WOp) :
+/-- After a refused chunk the run is frozen (the exception has left the transformation). -/
+theorem callback_failure_stops (tr : List Nat → Bytes) (st : WSt) (h : st.failed = true) (ops : List WOp) :
     wrun tr ops st = st := by
   induction ops with
   | nil => rfl
@@ -204,6 +257,25 @@ theorem callback_failure_stops_partial (tr : List Nat → Bytes) (st : WSt) (h :
     have : wstep tr st op = st := by simp [wstep, h]
     show wrun tr ops (wstep tr st op) = st
     rw [this]; exact ih
+
+/-- **Refused chunk.**  For every history, buffer size and flush-handler setting, and a handler that reports a short
+count for its (k+1)-th chunk (any k): the bytes handed to the handler — the refused chunk included, the
+print-writer's closing flush included — are a prefix of the byte stream the serializer wrote.  (Simulation of the
+budgeted run by the unfailing one; `XalanModel/C05/StreamFailProofs.lean`.) -/
+theorem callback_failure_prefix (tr : List Nat → Bytes) (ha : Additive tr) (ops : List WOp) (bufSize k : Nat) (fh : Bool) :
+    received ((wrun tr ops { fresh bufSize fh with budget := some k }).close tr) <+: specBytes tr false ops := by
+  have t0 : Twin { fresh bufSize fh with budget := some k } (fresh bufSize fh) := .inl ⟨rfl, rfl⟩
+  obtain ⟨t1, hb1⟩ := twin_wrun tr ops _ _ t0 rfl
+  have t2 := ((ok_close tr).pres t1 hb1).1
+  have := t2.prefix
+  rwa [callback_concat tr ha ops bufSize fh] at this
+
+/-- non-vacuity: the handler refuses its second chunk; two chunks were handed over, a strict prefix -/
+example :
+    received ((wrun (fun s => s) [.wide [97, 98, 99], .narrow [65], .wide [100], .flush]
+        { fresh 2 true with budget := some 1 }).close (fun s => s)) = [97, 98, 99, 65] ∧
+    specBytes (fun s => s) false [.wide [97, 98, 99], .narrow [65], .wide [100], .flush] = [97, 98, 99, 65, 100] := by
+  decide
 
 /-- non-vacuity: a history that crosses the buffer limit both ways, mixes narrow and wide writes,
 switches to UTF-16 and flushes, on a 4-unit buffer -/
@@ -290,6 +362,34 @@ theorem stree_target_as_written_partial (evs : List TEv) (h : ∀ e ∈ evs, ∀
   unfold tbuild
   rw [hh evs _ h]
 
+/-! ## (ii'') a Xerces DOM as result target -/
+
+/-- **dom_targets_equal (partial).**  For every result with one document element whose character data is delivered
+as `characters` events cut in any way (no `cdata`, no ignorable-whitespace events; attributes already in the
+namespace-declarations-first order the native tree uses), `FormatterToXercesDOM` and the (fixed or unchanged)
+`FormatterToSourceTree` build the same tree, the XPath normal form of the result — the tree a parser builds from
+the serialized bytes.  Partial: with `cdata` events the DOM holds a CDATASection node of its own (adjacent to text
+nodes; equal only after the XPath-view merge the check applies), and ignorable whitespace becomes a separate Text
+node; those are covered by the `xdom` correspondence run, not by this theorem. -/
+theorem dom_targets_equal_partial (nm : Str) (a : List (Str × Str)) (kids : Forest) (hn : NoIws kids = true)
+    (ho : AttrsOrdered (.elem nm a kids .nil) = true) :
+    xbuild (.startElement nm a :: (tevents kids ++ [.endElement])) = .ok (.elem nm a (norm kids) .nil) ∧
+    xbuild (.startElement nm a :: (tevents kids ++ [.endElement])) =
+      tbuild true (.startElement nm a :: (tevents kids ++ [.endElement])) := by
+  have hx := xbuild_root nm a kids hn ho
+  refine ⟨hx, ?_⟩
+  rw [hx, tbuild_root true nm a kids]
+  simp only [AttrsOrdered, Bool.and_eq_true, beq_iff_eq] at ho
+  rw [ho.1.1]
+
+/-- non-vacuity, and what happens outside the hypotheses: `<t>ab<![CDATA[c]]>d</t>` into a DOM keeps three nodes -/
+example :
+    AttrsOrdered (.elem [116] [("xmlns:q".toList.map Char.toNat, [117]), ([105], [49])] (.text [97] (.text [98] (.comment [109] .nil))) .nil) = true ∧
+    xbuild [.startElement [116] [], .characters [97], .characters [98], .cdata [99], .characters [100], .endElement] =
+      .ok (.elem [116] [] (.text [97, 98] (.text [99] (.text [100] .nil))) .nil) ∧
+    xbuild [.characters [120], .startElement [116] [], .endElement] = .error .hierarchy := by
+  decide
+
 /-! ## (iii) the funnel (over the table regenerated from the source) -/
 
 /-- Every public `XalanTransformer::transform` overload ends — on every call path through the
@@ -360,5 +460,28 @@ example :
     let g := Forest.elem [97] [] (chunks [[104], [], [105, 33]] .nil) .nil
     Refrag f g ∧ TopOK f false = true ∧ Additive (fun s : List Nat => s) :=
   ⟨.elem _ _ _ _ _ _ (.texts _ _ _ _ (by decide) .nil) .nil, by decide, ascii_additive⟩
+
+/-- **forms_equivalent, DOM side (partial).**  Source side: the native tree built from any fragmentation of a document
+and the eager Xerces-DOM wrapper over the same document in XPath normal form list the same nodes in the same
+document order with the same indices.  Result side: for a result with one document element delivered as `characters`
+events cut in any way, the Xerces-DOM target, the source-tree target and the parser reading the serialized bytes
+(`sax_build_eq_norm`, up to its `xmlns:xml` attribute) all hold the normal form of the result.
+Partial: what an *engine* computes from the two source representations is compared by the product run only;
+the wrapper theorem takes the DOM as given (Xerces' parser is not modelled); `cdata`/ignorable-whitespace events and
+non-indexed wrappers (structural `isNodeAfter`, property C12) are outside the statement. -/
+theorem forms_equivalent_dom_partial (f : Forest) (h : TopOK f false = true)
+    (nm : Str) (a : List (Str × Str)) (kids : Forest) (hn : NoIws kids = true)
+    (ho : AttrsOrdered (.elem nm a kids .nil) = true) :
+    ((wrapDocument (normDoc f)).map (·.1) = creationLog (events f) { accumulate := true } ∧
+     (wrapDocument (normDoc f)).map (·.2) = List.range' 2 (creationLog (events f) { accumulate := true }).length) ∧
+    (xbuild (.startElement nm a :: (tevents kids ++ [.endElement])) = .ok (.elem nm a (norm kids) .nil) ∧
+     tbuild true (.startElement nm a :: (tevents kids ++ [.endElement])) = .ok (.elem nm a (norm kids) .nil) ∧
+     build true (events (.elem nm a kids .nil)) = .ok (.elem nm (xmlNsAttr :: a) (norm kids) .nil)) := by
+  have hoa : orderAttrs a = a := by
+    simp only [AttrsOrdered, Bool.and_eq_true, beq_iff_eq] at ho; exact ho.1.1
+  refine ⟨index_eq_structure f h, (dom_targets_equal_partial nm a kids hn ho).1, ?_, ?_⟩
+  · rw [tbuild_root true nm a kids, hoa]
+  · have := sax_build_eq_norm (.elem nm a kids .nil) (by simp [TopOK])
+    simpa [normDoc, hoa] using this
 
 end XalanModel.Props.C05
